@@ -3,31 +3,52 @@
 // Contracts for govc (contract-based deductive verification); comments only.
 package resource_info
 
-// GPU share contributed by MIG instances of a Resource: a fold over the scalar
-// resources that parses MIG profile names (ExtractGpuAndMemoryFromMigResourceName).
-// Kept abstract: a non-negative function of the object.
-//@ declare migGpus(r *Resource) real
+//@ import cires "github.com/NVIDIA/KAI-scheduler/pkg/scheduler/api/common_info/resources"
+
+// v1.ResourceName.String() is `return string(rn)` (library method, no body in the loaded program).
+//@ func (k8s.io/api/core/v1.ResourceName).String
+//@   trusted
+//@   note library method `func (rn ResourceName) String() string { return string(rn) }`: the conversion is the identity on the string
+//@   pure
+//@   ensures result == string(rn)
+//@ end
+
+// GPU share of one map entry (name -> instance count) when the name is a well-formed MIG profile name:
+// (GPU slices named by the profile) x (instances). cires.migNameOK/migNameGpus name the verdict and the number of
+// the regular-expression parser (assumed deterministic, see that package's contract file).
+//@ define migEntry(name v1.ResourceName, n int64) real = ite(cires.migNameOK(string(name)), real(cires.migNameGpus(string(name))) * real(n), 0.0)
+// C08/C07 "GPU quantities": GPU share contributed by MIG instances of a Resource = the SUM over its scalar resources
+// that are MIG profiles ("nvidia.com/mig-" prefix) of slices x instances.  (Was an abstract `declare` with the fold
+// trusted; now a finite sum proved against the loop.)
+//@ define migGpus(r *Resource) real = sum k in r.scalarResources :: ite(IsMigResource(k), migEntry(k, r.scalarResources[k]), 0.0)
 
 //@ func (*Resource).GetTotalGPURequest
 //@   props C07 C08
-//@   trusted
-//@   note assumed contract: total = whole GPUs + MIG share; the MIG fold (string parsing of profile names) is not verified
 //@   requires r != nil
 //@   pure
-//@   ensures result == r.gpus + migGpus(r)
+//@   loop 1
+//@     invariant forall k in visited :: k in r.scalarResources
+//@     invariant totalGpusQuota == sum k in visited :: ite(IsMigResource(k), migEntry(k, r.scalarResources[k]), 0.0)
+//@   ensures [total] result == r.gpus + migGpus(r)
 //@ end
 
-// Total GPU quota of a request (whole + fractional GPUs, DRA claim counts, MIG share): two map folds
-// (one parsing MIG profile names). Kept abstract; name `gpusQuota` is used by other packages (C08).
-//@ declare gpusQuota(g *GpuResourceRequirement) real
+// Total GPU quota of a request = MIG share (sum over migResources of slices x instances) + DRA claim counts (sum over
+// draGpuCounts) + whole/fractional GPUs (portion x devices, 2-decimal fixed point).  The name `gpusQuota` is used by
+// other packages (C08).
+//@ define migQuota(g *GpuResourceRequirement) real = sum k in g.migResources :: migEntry(k, g.migResources[k])
+//@ define gpusQuota(g *GpuResourceRequirement) real = migQuota(g) + real(draSum(g.draGpuCounts)) + getExtendedResourceGpus(g.portion, g.count)
 
 //@ func (*GpuResourceRequirement).GetGpusQuota
 //@   props C08 C14
-//@   trusted
-//@   note assumed: quota = MIG share + DRA counts + extended-resource GPUs; the two map folds are not verified
 //@   requires g != nil
 //@   pure
-//@   ensures result == gpusQuota(g)
+//@   loop 1
+//@     invariant forall k in visited :: k in g.migResources
+//@     invariant totalGpusQuota == sum k in visited :: migEntry(k, g.migResources[k])
+//@   loop 2
+//@     invariant forall k in visited :: k in g.draGpuCounts
+//@     invariant totalGpusQuota == migQuota(g) + real(sum k in visited :: g.draGpuCounts[k])
+//@   ensures [quota] result == gpusQuota(g)
 //@ end
 
 // ---- BaseResource -----------------------------------------------------------
@@ -220,20 +241,19 @@ package resource_info
 //@   ensures result == isFractional(g)
 //@ end
 
-// Number of GPUs requested through DRA claims: a fold (sum) over the map draGpuCounts. No sum theory in the spec
-// language: the sum is a ghost attribute of the MAP object (havocked by unknown code like a field; a new map has an
-// unconstrained sum; the only in-place writer of such a map in the repo is GpuResourceRequirement.SetMaxResource,
-// which has no contract = havoc).
-//@ ghost draSum(m map[string]int64) int
+// Number of GPUs requested through DRA claims = the SUM of the per-claim counts in the map draGpuCounts (was a ghost
+// attribute of the map with the fold trusted; now a finite sum proved against the loop).
+//@ define draSum(m map[string]int64) int = sum k in m :: m[k]
 
 //@ func (*GpuResourceRequirement).GetDraGpusCount
 //@   props C01 C14
-//@   trusted
-//@   note assumed: the sum over the map draGpuCounts is the ghost attribute draSum of that map (no sum theory in the spec language); exact 0 for an empty map is stated
 //@   requires g != nil
 //@   pure
-//@   ensures result == draSum(g.draGpuCounts)
-//@   ensures (forall k string :: !(k in g.draGpuCounts)) ==> result == 0
+//@   loop 1
+//@     invariant forall k in visited :: k in g.draGpuCounts
+//@     invariant count == sum k in visited :: g.draGpuCounts[k]
+//@   ensures [sumOfClaims] result == draSum(g.draGpuCounts)
+//@   ensures [emptyIsZero] (forall k string :: !(k in g.draGpuCounts)) ==> result == 0
 //@ end
 
 //@ func (*GpuResourceRequirement).SetDraGpus
@@ -519,7 +539,7 @@ package resource_info
 //@ func (*GpuResourceRequirement).SetMaxResource
 //@   props C10 C19
 //@   requires g != nil && gg != nil && g.draGpuCounts != nil && g.migResources != nil && g.draGpuCounts != gg.draGpuCounts && g.migResources != gg.migResources
-//@   modifies g.count, g.portion, g.draGpuCounts[*], g.migResources[*], draSum(g.draGpuCounts)
+//@   modifies g.count, g.portion, g.draGpuCounts[*], g.migResources[*]
 //@   loop 1
 //@     invariant true
 //@   loop 2
@@ -529,7 +549,7 @@ package resource_info
 //@ func (*ResourceRequirements).SetMaxResource
 //@   props C10 C19
 //@   requires r != nil && rr != nil ==> r.draGpuCounts != nil && r.migResources != nil && r.draGpuCounts != rr.draGpuCounts && r.migResources != rr.migResources && (r.scalarResources != rr.scalarResources || r.scalarResources == nil)
-//@   modifies r.milliCpu, r.memory, r.scalarResources, r.scalarResources[*], r.count, r.portion, r.draGpuCounts[*], r.migResources[*], draSum(r.draGpuCounts)
+//@   modifies r.milliCpu, r.memory, r.scalarResources, r.scalarResources[*], r.count, r.portion, r.draGpuCounts[*], r.migResources[*]
 //@   ensures r != nil && rr != nil ==> r.milliCpu == max(old(r.milliCpu), rr.milliCpu) && r.memory == max(old(r.memory), rr.memory) && r.scalarResources != nil
 //@   ensures [mapKept] r != nil && rr != nil ==> ite(old(r.scalarResources) != nil, r.scalarResources == old(r.scalarResources), fresh(r.scalarResources))
 //@ end
@@ -538,5 +558,253 @@ package resource_info
 //@   props C07
 //@   trusted
 //@   note log-line formatting (strings.Builder over (*Resource).String()); read-only, result only used as a log argument
+//@   pure
+//@ end
+
+// ---- added by helper "cache" ----
+// Snapshot construction (cluster_info.Snapshot): DRA claim indexing and the shared resource-vector layout.
+// Code-derived helper contracts (no property-derived clause here): nil-ness and frames only.
+
+//@ define claimsNonNil(cs []*resourceapi.ResourceClaim) bool = forall i int :: 0 <= i && i < len(cs) ==> cs[i] != nil
+//@ define claimMapNonNil(m map[string]*resourceapi.ResourceClaim) bool = forall k in m :: m[k] != nil
+//@ define podClaimsNonNil(m map[types.UID]map[types.UID]*resourceapi.ResourceClaim) bool = forall p in m :: forall c in m[p] :: m[p][c] != nil
+
+// frame of the pod->claims index for loops of OTHER packages that call GetDraPodClaims (their files may not import
+// k8s.io/apimachinery/pkg/types): every claim map that existed at function entry is unchanged (the index itself and
+// its inner maps are allocated after entry). `own` is the index (only there to give the define a parameter).
+//@ define draIndexFrame(own map[types.UID]map[types.UID]*resourceapi.ResourceClaim) bool = own != nil && fresh(own) && (forall p in own :: fresh(own[p])) && (forall m map[types.UID]*resourceapi.ResourceClaim :: m != nil && old(allocated(m)) ==> dom(m) == old(dom(m))) && (forall m map[types.UID]*resourceapi.ResourceClaim, k types.UID :: m != nil && old(allocated(m)) && old(k in m) ==> m[k] == old(m[k])) && (forall m map[types.UID]map[types.UID]*resourceapi.ResourceClaim :: m != nil && old(allocated(m)) ==> dom(m) == old(dom(m))) && (forall m map[types.UID]map[types.UID]*resourceapi.ResourceClaim, k types.UID :: m != nil && old(allocated(m)) && old(k in m) ==> m[k] == old(m[k]))
+
+//@ func (k8s.io/apimachinery/pkg/types.NamespacedName).String
+//@   props C12 C10
+//@   trusted
+//@   note external (k8s.io/apimachinery/pkg/types): returns Namespace + "/" + Name; assumed read-only
+//@   pure
+//@ end
+
+//@ func ResourceClaimSliceToMap
+//@   props C10 C12
+//@   requires claimsNonNil(draResourceClaims)
+//@   fresh
+//@   loop 1
+//@     invariant 0 - 1 <= rangeindex && rangeindex < len(draResourceClaims)
+//@     invariant draClaimMap != nil && fresh(draClaimMap)
+//@     invariant claimMapNonNil(draClaimMap)
+//@   ensures result != nil && claimMapNonNil(result)
+//@ end
+
+//@ func addClaimToPodClaimMap
+//@   props C10 C12
+//@   requires claim != nil && podsToClaimsMap != nil
+//@   modifies podsToClaimsMap[podUid], podsToClaimsMap[podUid][*]
+//@   ensures old(podClaimsNonNil(podsToClaimsMap)) ==> podClaimsNonNil(podsToClaimsMap)
+//@   ensures podUid in podsToClaimsMap && podsToClaimsMap[podUid] != nil && (podsToClaimsMap[podUid] == old(podsToClaimsMap[podUid]) || fresh(podsToClaimsMap[podUid]))
+//@ end
+
+//@ func CalcClaimsToPodsBaseMap
+//@   props C10 C12
+//@   requires claimMapNonNil(draClaimsMap)
+//@   fresh
+//@   loop 1
+//@     invariant podsToClaimsMap != nil && fresh(podsToClaimsMap)
+//@     invariant podClaimsNonNil(podsToClaimsMap)
+//@     invariant forall p in podsToClaimsMap :: fresh(podsToClaimsMap[p])
+//@     invariant forall m map[types.UID]*resourceapi.ResourceClaim :: m != nil && old(allocated(m)) ==> dom(m) == old(dom(m))
+//@     invariant forall m map[types.UID]*resourceapi.ResourceClaim, k types.UID :: m != nil && old(allocated(m)) && old(k in m) ==> m[k] == old(m[k])
+//@     invariant forall m map[types.UID]map[types.UID]*resourceapi.ResourceClaim :: m != nil && old(allocated(m)) ==> dom(m) == old(dom(m))
+//@     invariant forall m map[types.UID]map[types.UID]*resourceapi.ResourceClaim, k types.UID :: m != nil && old(allocated(m)) && old(k in m) ==> m[k] == old(m[k])
+//@   loop 2
+//@     invariant 0 - 1 <= rangeindex && rangeindex < len(claim.OwnerReferences)
+//@     invariant podsToClaimsMap != nil && fresh(podsToClaimsMap)
+//@     invariant podClaimsNonNil(podsToClaimsMap)
+//@     invariant forall p in podsToClaimsMap :: fresh(podsToClaimsMap[p])
+//@     invariant forall m map[types.UID]*resourceapi.ResourceClaim :: m != nil && old(allocated(m)) ==> dom(m) == old(dom(m))
+//@     invariant forall m map[types.UID]*resourceapi.ResourceClaim, k types.UID :: m != nil && old(allocated(m)) && old(k in m) ==> m[k] == old(m[k])
+//@     invariant forall m map[types.UID]map[types.UID]*resourceapi.ResourceClaim :: m != nil && old(allocated(m)) ==> dom(m) == old(dom(m))
+//@     invariant forall m map[types.UID]map[types.UID]*resourceapi.ResourceClaim, k types.UID :: m != nil && old(allocated(m)) && old(k in m) ==> m[k] == old(m[k])
+//@   loop 3
+//@     invariant 0 - 1 <= rangeindex && rangeindex < len(claim.Status.ReservedFor)
+//@     invariant podsToClaimsMap != nil && fresh(podsToClaimsMap)
+//@     invariant podClaimsNonNil(podsToClaimsMap)
+//@     invariant forall p in podsToClaimsMap :: fresh(podsToClaimsMap[p])
+//@     invariant forall m map[types.UID]*resourceapi.ResourceClaim :: m != nil && old(allocated(m)) ==> dom(m) == old(dom(m))
+//@     invariant forall m map[types.UID]*resourceapi.ResourceClaim, k types.UID :: m != nil && old(allocated(m)) && old(k in m) ==> m[k] == old(m[k])
+//@     invariant forall m map[types.UID]map[types.UID]*resourceapi.ResourceClaim :: m != nil && old(allocated(m)) ==> dom(m) == old(dom(m))
+//@     invariant forall m map[types.UID]map[types.UID]*resourceapi.ResourceClaim, k types.UID :: m != nil && old(allocated(m)) && old(k in m) ==> m[k] == old(m[k])
+//@   ensures result != nil && podClaimsNonNil(result)
+//@   ensures [ownInnerMaps] forall p in result :: fresh(result[p])
+//@ end
+
+//@ func GetDraPodClaims
+//@   props C10 C12
+//@   requires pod != nil && podsToClaimsMap != nil && claimMapNonNil(draClaimMap) && podClaimsNonNil(podsToClaimsMap)
+//@   modifies podsToClaimsMap[pod.UID], podsToClaimsMap[pod.UID][*]
+//@   loop 1
+//@     invariant 0 - 1 <= rangeindex && rangeindex < len(pod.Spec.ResourceClaims)
+//@     invariant podClaimsNonNil(podsToClaimsMap)
+//@     invariant forall p in podsToClaimsMap :: (old(p in podsToClaimsMap) && podsToClaimsMap[p] == old(podsToClaimsMap[p])) || fresh(podsToClaimsMap[p])
+//@   loop 2
+//@     invariant claimsNonNil(draPodClaims)
+//@     invariant podClaimsNonNil(podsToClaimsMap)
+//@   ensures claimsNonNil(result)
+//@   ensures podClaimsNonNil(podsToClaimsMap)
+//@   ensures [innerMapsKeptOrNew] forall p in podsToClaimsMap :: (old(p in podsToClaimsMap) && podsToClaimsMap[p] == old(podsToClaimsMap[p])) || fresh(podsToClaimsMap[p])
+//@ end
+
+// ---- helper "cache": quantities of a v1.ResourceList (C14 C01 establish: node Idle == Allocatable at construction) ----
+// resource.Quantity is an opaque exact real in the engine (A-QTY). Its three accessors have no body in the loaded
+// program; they are assumed to be read-only deterministic functions of the quantity (named, not defined).
+//@ declare qIsZero(q real) bool
+//@ declare qValue(q real) int
+//@ declare qMilli(q real) int
+
+//@ func (*k8s.io/apimachinery/pkg/api/resource.Quantity).IsZero
+//@   props C14 C01 C10
+//@   trusted
+//@   note library method without body in the loaded program; Quantity modelled as an exact real (A-QTY); assumed read-only and a deterministic function of the quantity
+//@   requires recv != nil
+//@   pure
+//@   ensures result == qIsZero(*recv)
+//@ end
+//@ func (*k8s.io/apimachinery/pkg/api/resource.Quantity).Value
+//@   props C14 C01 C10
+//@   trusted
+//@   note library method without body in the loaded program (rounds up to an int64); assumed read-only and a deterministic function of the quantity
+//@   requires recv != nil
+//@   pure
+//@   ensures result == qValue(*recv)
+//@ end
+//@ func (*k8s.io/apimachinery/pkg/api/resource.Quantity).MilliValue
+//@   props C14 C01 C10
+//@   trusted
+//@   note library method without body in the loaded program (value x 1000, rounded up); assumed read-only and a deterministic function of the quantity
+//@   requires recv != nil
+//@   pure
+//@   ensures result == qMilli(*recv)
+//@ end
+
+// k8s resource-name classes used by k8s_internal.IsScalarResourceName (library predicates on the name, no body loaded)
+//@ declare extendedName(n string) bool
+//@ declare hugePageName(n string) bool
+//@ declare prefixedNativeName(n string) bool
+//@ declare attachableVolumeName(n string) bool
+//@ func k8s.io/kubernetes/pkg/apis/core/v1/helper.IsExtendedResourceName
+//@   props C14 C01 C10
+//@   trusted
+//@   note k8s library predicate on the resource name; assumed pure and deterministic
+//@   pure
+//@   ensures result == extendedName(string(arg0))
+//@ end
+//@ func k8s.io/kubernetes/pkg/apis/core/v1/helper.IsHugePageResourceName
+//@   props C14 C01 C10
+//@   trusted
+//@   note k8s library predicate on the resource name; assumed pure and deterministic
+//@   pure
+//@   ensures result == hugePageName(string(arg0))
+//@ end
+//@ func k8s.io/kubernetes/pkg/apis/core/v1/helper.IsPrefixedNativeResource
+//@   props C14 C01 C10
+//@   trusted
+//@   note k8s library predicate on the resource name; assumed pure and deterministic
+//@   pure
+//@   ensures result == prefixedNativeName(string(arg0))
+//@ end
+//@ func k8s.io/kubernetes/pkg/apis/core/v1/helper.IsAttachableVolumeResourceName
+//@   props C14 C01 C10
+//@   trusted
+//@   note k8s library predicate on the resource name; assumed pure and deterministic
+//@   pure
+//@   ensures result == attachableVolumeName(string(arg0))
+//@ end
+
+// How ResourceFromResourceList reads one entry of a resource list (zero quantities are skipped):
+//@ define rlHas(rl v1.ResourceList, k v1.ResourceName) bool = k in rl && !qIsZero(rl[k])
+//@ define rlValue(rl v1.ResourceList, k v1.ResourceName) int = ite(rlHas(rl, k), qValue(rl[k]), 0)
+//@ define rlMilli(rl v1.ResourceList, k v1.ResourceName) int = ite(rlHas(rl, k), qMilli(rl[k]), 0)
+// the names that are not scalar resources of a Resource (cpu, memory, the two whole-GPU names)
+//@ define rlSpecial(k v1.ResourceName) bool = k == v1.ResourceCPU || k == v1.ResourceMemory || k == GPUResourceName || k == amdGpuResourceName
+// scalar resources counted by Value(): pods, MIG profiles, (ephemeral) storage; by MilliValue(): the other k8s scalar names
+//@ define rlByValue(k v1.ResourceName) bool = !rlSpecial(k) && (k == v1.ResourcePods || IsMigResource(k) || k == v1.ResourceEphemeralStorage || k == v1.ResourceStorage)
+//@ define rlByMilli(k v1.ResourceName) bool = !rlSpecial(k) && !rlByValue(k) && (extendedName(string(k)) || hugePageName(string(k)) || prefixedNativeName(string(k)) || attachableVolumeName(string(k)))
+//@ define rlScalar(rl v1.ResourceList, k v1.ResourceName) int = ite(rlByValue(k), rlValue(rl, k), ite(rlByMilli(k), rlMilli(rl, k), 0))
+//@ define rlScalarHas(rl v1.ResourceList, k v1.ResourceName) bool = rlHas(rl, k) && (rlByValue(k) || rlByMilli(k))
+
+// C14 "what the scheduler believes about each node (idle, used ... resources) equals the value recomputed from
+// scratch": the Resource built from a resource list is a FUNCTION of the list (so two builds from the same list -
+// NodeInfo.Idle and NodeInfo.Allocatable - agree field by field), with cpu in milli-units, memory and GPUs in units.
+//@ func ResourceFromResourceList
+//@   props C14 C01 C10
+//@   fresh
+//@   loop 1
+//@     invariant r != nil && fresh(r) && r.scalarResources != nil && fresh(r.scalarResources)
+//@     invariant forall k in visited :: k in rList
+//@     invariant r.milliCpu == ite(v1.ResourceCPU in visited, real(rlMilli(rList, v1.ResourceCPU)), 0.0)
+//@     invariant r.memory == ite(v1.ResourceMemory in visited, real(rlValue(rList, v1.ResourceMemory)), 0.0)
+//@     invariant r.gpus == ite(GPUResourceName in visited, real(rlValue(rList, GPUResourceName)), 0.0) + ite(amdGpuResourceName in visited, real(rlValue(rList, amdGpuResourceName)), 0.0)
+//@     invariant forall k v1.ResourceName :: r.scalarResources[k] == ite(k in visited, rlScalar(rList, k), 0)
+//@     invariant forall k v1.ResourceName :: k in r.scalarResources <==> k in visited && rlScalarHas(rList, k)
+//@   ensures [cpuMem] result.milliCpu == real(rlMilli(rList, v1.ResourceCPU)) && result.memory == real(rlValue(rList, v1.ResourceMemory))
+//@   ensures [gpus] result.gpus == real(rlValue(rList, GPUResourceName)) + real(rlValue(rList, amdGpuResourceName))
+//@   ensures [scalars] forall k v1.ResourceName :: result.scalarResources[k] == rlScalar(rList, k)
+//@   ensures [scalarDom] forall k v1.ResourceName :: k in result.scalarResources <==> rlScalarHas(rList, k)
+//@   ensures [ownMap] result.scalarResources != nil && fresh(result.scalarResources)
+//@ end
+
+// ---- helper "cache": the shared resource-vector layout while the snapshot is being built ----
+// Data invariant of a ResourceVectorMap (needed for no-panic of every `vec[idx]` with idx from GetIndex): the index map
+// exists and every index it holds addresses a name of the list.  The layout only ever GROWS (AddResource appends), so
+// a vector made earlier may be shorter than the layout (readers use the bounds-checked Get/Set).
+//@ define vmWF(m *ResourceVectorMap) bool = m != nil && m.namesToIndex != nil && (forall n in m.namesToIndex :: 0 <= m.namesToIndex[n] && m.namesToIndex[n] < len(m.resourceNames))
+
+//@ func (*ResourceVectorMap).AddResource
+//@   props C10 C14
+//@   requires vmWF(m)
+//@   modifies m.namesToIndex[*], m.resourceNames
+//@   ensures [wf] vmWF(m)
+//@   ensures [grows] len(m.resourceNames) >= old(len(m.resourceNames)) && (forall n string :: old(n in m.namesToIndex) ==> n in m.namesToIndex && m.namesToIndex[n] == old(m.namesToIndex[n]))
+//@   ensures [added] normalizeResourceName(resourceName) in m.namesToIndex
+//@ end
+
+//@ func (*ResourceVectorMap).AddResourceList
+//@   props C10 C14
+//@   requires vmWF(m)
+//@   modifies m.namesToIndex[*], m.resourceNames
+//@   loop 1
+//@     invariant vmWF(m)
+//@     invariant len(m.resourceNames) >= old(len(m.resourceNames)) && (forall n string :: old(n in m.namesToIndex) ==> n in m.namesToIndex && m.namesToIndex[n] == old(m.namesToIndex[n]))
+//@   ensures [wf] vmWF(m)
+//@   ensures [grows] len(m.resourceNames) >= old(len(m.resourceNames)) && (forall n string :: old(n in m.namesToIndex) ==> n in m.namesToIndex && m.namesToIndex[n] == old(m.namesToIndex[n]))
+//@ end
+
+//@ func NewResourceVectorMap
+//@   props C10 C14
+//@   fresh
+//@   loop 1 unroll 4
+//@   ensures [wf] vmWF(result) && fresh(result.namesToIndex)
+//@   ensures [gpuSlot] constants.GpuResource in result.namesToIndex
+//@ end
+
+// vector of a resource list in the layout of indexMap: one slot per name of the layout AT THAT MOMENT
+//@ func NewResourceVectorFromResourceList
+//@   props C10 C14
+//@   requires vmWF(indexMap)
+//@   fresh
+//@   loop 1
+//@     invariant len(vec) == len(indexMap.resourceNames) && freshArray(vec)
+//@     invariant forall p *float64 :: p != nil && !fresh(p) ==> *p == old(*p)
+//@   ensures len(result) == len(indexMap.resourceNames)
+//@ end
+
+//@ func (ResourceVector).Clone
+//@   props C10 C14
+//@   fresh
+//@   ensures len(result) == len(v)
+//@   ensures forall i int :: 0 <= i && i < len(v) ==> result[i] == v[i]
+//@ end
+
+//@ func (*Resource).DetailedString
+//@   props C10 C14 C01
+//@   trusted
+//@   note log-line formatting (strings.Builder + fmt.Sprintf over the resource's own fields: outside the subset); read-only, the result is only used as a log argument
+//@   requires r != nil
 //@   pure
 //@ end
